@@ -61,27 +61,37 @@ Definition block_on (i : nat) (e : event) : bool :=
   match e with EBlock j | EBlockCheck j | EBlockStep j _ => Nat.eqb i j | _ => false end.
 Definition no_block_on (i : nat) (h : list event) : Prop := forallb (fun e => negb (block_on i e)) h = true.
 
-(* trace of a history from the initial state: any interleaving of threads / single-threaded use *)
-Definition trace (h : list event) : list obs := snd (run init h).
-Definition trace1 (h : list event) : list obs := snd (run1 init h).
+(* A connection may have handed out any number of serials before the history
+   we look at starts: its counter b is any non-zero 32-bit value (a fresh
+   connection has b = 1; a long-running service is far beyond 2^31).  Every
+   claim below is made for every such b. *)
+Definition valid_base (b : N) : Prop := 1 <= b < two32.
 
-(* the 32-bit counter has not wrapped: fewer than 2^32 - 1 serials have been handed out *)
-Definition nowrap (h : list event) : Prop := N.of_nat (length (drawn (trace h))) < two32 - 1.
+(* trace of a history from the initial state: any interleaving of threads / single-threaded use *)
+Definition trace_at (b : N) (h : list event) : list obs := snd (run (init_at b) h).
+Definition trace1_at (b : N) (h : list event) : list obs := snd (run1 (init_at b) h).
+Definition trace (h : list event) : list obs := trace_at 1 h.
+Definition trace1 (h : list event) : list obs := trace1_at 1 h.
+
+(* the 32-bit counter has not come round: fewer than 2^32 - 1 serials have been handed out in this history *)
+Definition nowrap_at (b : N) (h : list event) : Prop := N.of_nat (length (drawn (trace_at b h))) < two32 - 1.
+Definition nowrap (h : list event) : Prop := nowrap_at 1 h.
 
 (* ---- the claims of the property, at full strength ----------------------- *)
-Definition C17_at_most_once_statement : Prop := forall h, at_most_once (trace h).
-Definition C17_pairing_statement : Prop := forall h, nowrap h -> paired (trace h) /\ unshared (trace h).
-Definition C17_serials_statement : Prop := forall h, N.of_nat (length (drawn (trace h))) <= two32 - 1 -> serials_ok (trace h).
+Definition C17_at_most_once_statement : Prop := forall b h, valid_base b -> at_most_once (trace_at b h).
+Definition C17_pairing_statement : Prop := forall b h, valid_base b -> nowrap_at b h -> paired (trace_at b h) /\ unshared (trace_at b h).
+Definition C17_serials_statement : Prop :=
+  forall b h, valid_base b -> N.of_nat (length (drawn (trace_at b h))) <= two32 - 1 -> serials_ok (trace_at b h).
 
 (* "A cancelled call is never notified": if call i has not completed when it is
    cancelled, nothing that happens afterwards completes or notifies it. *)
 Definition C17_cancel_silent_full_statement : Prop :=
-  forall h1 h2 i, (i < length (call_serials (trace h1)))%nat -> count_complete i (trace h1) = 0%nat ->
-    let tr2 := snd (run (fst (run init (h1 ++ [ECancel i]))) h2) in
+  forall b h1 h2 i, valid_base b -> (i < length (call_serials (trace_at b h1)))%nat -> count_complete i (trace_at b h1) = 0%nat ->
+    let tr2 := snd (run (fst (run (init_at b) (h1 ++ [ECancel i]))) h2) in
     count_complete i tr2 = 0%nat /\ count_notify i tr2 = 0%nat.
 
 (* no schedule makes the library hit an assertion or dereference NULL *)
-Definition C17_no_fault_full_statement : Prop := forall h, fault (fst (run init h)) = 0.
+Definition C17_no_fault_full_statement : Prop := forall b h, valid_base b -> fault (fst (run (init_at b) h)) = 0.
 
 (* "... or with a locally generated error if ... the connection closes first":
    a single-threaded program that has sent calls, sees the connection close,
@@ -90,6 +100,6 @@ Definition C17_no_fault_full_statement : Prop := forall h, fault (fst (run init 
 Definition closes (h : list event) : Prop := In EPeerClose h \/ In ELocalClose h.
 Definition settled (h : list event) (k : nat) : list event := h ++ ERead :: repeat EDispatch k.
 Definition C17_close_completes_full_statement : Prop :=
-  forall h, nowrap h -> closes h ->
-  forall i, (i < length (call_serials (trace1 h)))%nat -> ~ In (ECancel i) h ->
-  exists k, count_complete i (trace1 (settled h k)) = 1%nat.
+  forall b h, valid_base b -> nowrap_at b h -> closes h ->
+  forall i, (i < length (call_serials (trace1_at b h)))%nat -> ~ In (ECancel i) h ->
+  exists k, count_complete i (trace1_at b (settled h k)) = 1%nat.
